@@ -11,6 +11,7 @@
 //   time.Now / time.Since / time.Sleep -> verifrt.Now / Since / Sleep
 //   rand.Int()                         -> verifrt.RandInt()
 //   sync.Mutex / sync.RWMutex (types)  -> verifrt.Mutex / verifrt.RWMutex
+//   sync.Pool (type)                   -> verifrt.Pool (deterministic LIFO free list; Get/Put are scheduling points)
 // With -chan (root package) additionally channel operations, select,
 // sync.WaitGroup, sync.Once, signal.Notify and os.Exit (see chan.go).
 package main
@@ -198,7 +199,7 @@ func (fc *fileCtx) rewriteTypeExpr(e ast.Expr) ast.Expr {
 	case *ast.SelectorExpr:
 		if fc.isPkg(t.X, "sync") {
 			switch t.Sel.Name {
-			case "Mutex", "RWMutex":
+			case "Mutex", "RWMutex", "Pool":
 				fc.stats["sync."+t.Sel.Name]++
 				return fc.rt(t.Sel.Name)
 			case "WaitGroup", "Once":
